@@ -289,7 +289,10 @@ func c08Judge(c *fw.Ctx, h *scen.History, cfgs []c08Config) {
 						// attestation entries recorded after the cache was populated
 						attrs = map[string]string{"index": "stale-after-populate"}
 					}
-					c08NeedsGit = true
+					if sig := fmt.Sprint(attrs); !c08GitSeen[sig] {
+						c08GitSeen[sig] = true
+						c08NeedsGit = true
+					}
 					c.Violation("verdict-depends-on-cache", attrs,
 						fmt.Sprintf("%s: without cache %+v, with configuration %+v: %+v", k, want, cfg, have), cs)
 				}
@@ -333,7 +336,8 @@ func c08IndexClass(h *scen.History, cfg c08Config) string {
 
 var (
 	c08NeedsGit  bool
-	c08GitBudget = 4
+	c08GitBudget = 2
+	c08GitSeen   = map[string]bool{}
 )
 
 // c08OnGit re-runs a violating configuration (and the cache-less reference) on
